@@ -193,7 +193,7 @@ func checkC14(r *Result) []Violation {
 		}
 		open := map[uint16]*refXfer{} // by message ID
 		delivered := 0
-		completeOK := map[int]bool{} // transfer index -> may complete
+		completeOK := map[int]bool{}  // transfer index -> may complete
 		completeStep := map[int]int{} // transfer index -> step of the delivery that completed it
 		// The model walks the deliveries (every chunk is exactly one frame in C14 plans, read by the server at
 		// the simulated instant it was delivered) and produces, per inbound frame, the group of re-requests that
